@@ -258,6 +258,37 @@ def run(ctx):
                 elif not it.args and (not kw or set(kw) <= {"size", "order", "up_to"}):
                     st = "violation"
         res.add("B-BOUND", f, norm(lp.iter) if lp is not None else "for hyperedge in ...", "bounded-listing", st, why if st != "ok" else "", loc(v.fi, lp if lp is not None else v.fi.node))
+    # ---- G-SCOPE: every listing of hyperedges a reciprocity function consults is restricted to the bound.  The per-node
+    #      queries (get_source_edges / get_target_edges / get_incident_edges) only filter by an exact size, so their result
+    #      has to pass a size guard that mentions the bound before it is used.
+    with res.guard("G-SCOPE"):
+        from ..schema import closure as _closure
+
+        res.rules["G-SCOPE"] = "a reciprocity function consults only hyperedges within the size bound: per-node incidence queries are followed by a size guard on the bound"
+        for d in SIBLINGS:
+            top = ctx.view(d)
+            bparams = [a.arg for a in top.fi.params[1:]]
+            n_q = 0
+            for fi_ in _closure(ctx, top.fi, prefix="hypergraphx.measures.directed"):
+                qv = ctx.view(fi_)
+                for c in walk_no_nested(fi_.node):
+                    if isinstance(c, ast.Call) and isinstance(c.func, ast.Attribute) and c.func.attr in ("get_source_edges", "get_target_edges", "get_incident_edges", "get_neighbors"):
+                        n_q += 1
+                        # the loop / comprehension that consumes the result, and a size guard on the bound inside it
+                        guarded = False
+                        holder = qv.enclosing(c, (ast.For, ast.ListComp, ast.SetComp, ast.GeneratorExp, ast.DictComp))
+                        tests = []
+                        if isinstance(holder, ast.For):
+                            tests = [i_.test for i_ in ast.walk(holder) if isinstance(i_, ast.If)]
+                        elif holder is not None:
+                            tests = [t_ for g in holder.generators for t_ in g.ifs]
+                        for t_ in tests:
+                            ti = qv.inline(t_)
+                            if any(isinstance(x, ast.Name) and x.id in bparams for x in ast.walk(ti)) and any(isinstance(x, ast.Call) and norm(x.func) == "len" for x in ast.walk(ti)):
+                                guarded = True
+                        res.add("G-SCOPE", fi_.short, norm(c), "bounded", "ok" if guarded else "violation", "" if guarded else f"`{norm(c)}` lists the hyperedges of a node whatever their size, and nothing restricts them to the bound afterwards: hyperedges larger than max_hyperedge_size decide whether an in-bound hyperedge counts as reciprocated", loc(fi_, c))
+            if not n_q:
+                res.ok("G-SCOPE", top.fi.short, "no per-node incidence query", "bounded", loc(top.fi, top.fi.node))
     # ---- reciprocity siblings
     with res.guard("reciprocity siblings"):
         from .. import predtab
